@@ -61,7 +61,11 @@ def deserialize_message(type_name: str, payload: Any) -> Message | None:
     # Remove metadata fields
     data.pop("message_id", None)
     data.pop("created_at", None)
-    data.pop("attempts", None)
+    # "attempts" is kept: a transient-retry RunTask carries its retry count in
+    # the payload (copy_with_attempts); dropping it reset the count on every
+    # queue round trip, so the retry limit was never reached.
+    if not isinstance(data.get("attempts"), int):
+        data.pop("attempts", None)
     data.pop("max_attempts", None)
 
     return create_message_from_dict(type_name, data)
